@@ -280,13 +280,15 @@ def w_conc2(kp: int, pre: int, a1: int, b1: int) -> str:
 def w_conc2s(kp: int, pre: int, a1: int, b1: int) -> str:
     """
     pre: PARTITION is None or (kp == PARTITION[0] and pre == PARTITION[1])
-    pre: 0 <= kp < 5 and 0 <= pre < 4 and 0 <= a1 < 40 and 0 <= b1 < 40
+    pre: 0 <= kp < 5 and 0 <= pre < 4 and 0 <= a1 < 24 and 0 <= b1 < 24
     post: _ == ''
     """
     kp, pre = rt.sel(kp, 5), rt.sel(pre, 4)
-    a1, b1 = rt.sel(a1, 40), rt.sel(b1, 40)
+    a1, b1 = rt.sel(a1, 24), rt.sel(b1, 24)
     with rt.untraced():
         pts = shared_points(kp, pre)
+        if len(pts) > 24:
+            return rt.fail('C04:bound-too-small', '%d shared instants; selectors only range over 0..23' % len(pts))
         if a1 >= len(pts) or b1 >= len(pts):
             rt.begin()
             return rt.ok()
@@ -297,13 +299,15 @@ def w_conc2s(kp: int, pre: int, a1: int, b1: int) -> str:
 def w_conc2x(kp: int, pre: int, a1: int, b1: int, a2: int) -> str:
     """
     pre: PARTITION is None or (kp == PARTITION[0] and pre == PARTITION[1])
-    pre: 0 <= kp < 5 and 0 <= pre < 4 and 0 <= a1 < 40 and 0 <= b1 < 40 and 0 <= a2 < 40
+    pre: 0 <= kp < 5 and 0 <= pre < 4 and 0 <= a1 < 24 and 0 <= b1 < 24 and 0 <= a2 < 24
     post: _ == ''
     """
     kp, pre = rt.sel(kp, 5), rt.sel(pre, 4)
-    a1, b1, a2 = rt.sel(a1, 40), rt.sel(b1, 40), rt.sel(a2, 40)
+    a1, b1, a2 = rt.sel(a1, 24), rt.sel(b1, 24), rt.sel(a2, 24)
     with rt.untraced():
         pts = shared_points(kp, pre)
+        if len(pts) > 24:
+            return rt.fail('C04:bound-too-small', '%d shared instants; selectors only range over 0..23' % len(pts))
         if a1 >= len(pts) or b1 >= len(pts) or a2 >= len(pts) or a2 <= a1:
             rt.begin()
             return rt.ok()
@@ -315,13 +319,15 @@ def w_conc2x(kp: int, pre: int, a1: int, b1: int, a2: int) -> str:
 def w_conc3(kp: int, pre: int, a1: int, b1: int, c1: int) -> str:
     """
     pre: PARTITION is None or (kp == PARTITION[0] and pre == PARTITION[1])
-    pre: 0 <= kp < 5 and 0 <= pre < 4 and 0 <= a1 < 40 and 0 <= b1 < 40 and 0 <= c1 < 40
+    pre: 0 <= kp < 5 and 0 <= pre < 4 and 0 <= a1 < 24 and 0 <= b1 < 24 and 0 <= c1 < 24
     post: _ == ''
     """
     kp, pre = rt.sel(kp, 5), rt.sel(pre, 4)
-    a1, b1, c1 = rt.sel(a1, 40), rt.sel(b1, 40), rt.sel(c1, 40)
+    a1, b1, c1 = rt.sel(a1, 24), rt.sel(b1, 24), rt.sel(c1, 24)
     with rt.untraced():
         pts = shared_points(kp, pre, 3)
+        if len(pts) > 24:
+            return rt.fail('C04:bound-too-small', '%d shared instants; selectors only range over 0..23' % len(pts))
         if a1 >= len(pts) or b1 >= len(pts) or c1 >= len(pts):
             rt.begin()
             return rt.ok()
@@ -332,6 +338,7 @@ def w_conc3(kp: int, pre: int, a1: int, b1: int, c1: int) -> str:
 def obligations(tier):
     parts_q = [(k, p) for k in (0, 1, 3) for p in (0, 2)]
     parts_t = [(k, p) for k in range(5) for p in range(4)]
+    parts_q2 = [(k, p) for k in range(5) for p in (0, 2)]
     obs = [
         CH('K_names_unique_and_paired', MOD, 'k_names', timeout=300, partitions=list(range(10)), engine='K', regime='traced',
            encodes=['create_trashinfo_basename', 'Suffix.suffix_for_index'],
@@ -339,10 +346,10 @@ def obligations(tier):
         CH('W_sequences_same_name', MOD, 'w_seq', timeout=1800, partitions=[(q, 4 if tier == 'thorough' else 2) for q in range(13)], engine='W', regime='selector',
            encodes=K.PUT_FUNCS, stubs=K.STUBS,
            bounds='1..2 (quick) / 1..4 (thorough) successive puts of entries named x or a 250-byte name (4 kinds each) x 13 pre-existing states x (<100 | >100 same-named entries with colliding random suffixes)'),
-        CH('W_two_processes_switch_at_shared_instants', MOD, 'w_conc2s', timeout=1800, partitions=parts_t,
+        CH('W_two_processes_switch_at_shared_instants', MOD, 'w_conc2s', timeout=1800, partitions=parts_t if tier == 'thorough' else parts_q2,
            engine='W', regime='selector', encodes=K.PUT_FUNCS + ['vf.sched replay-stepping'], stubs=K.STUBS,
            bounds='2 concurrent trash-put; P0 runs to its a1-th shared instant (next system call touches the trash directory), P1 to its b1-th, '
-                  'then both complete; every pair of shared instants x 5 kind pairs x 4 trash-dir pre-states'),
+                  'then both complete; every pair of shared instants x 5 kind pairs x 2 (quick) / 4 (thorough) trash-dir pre-states'),
     ]
     if tier == 'thorough':
         obs.append(CH('W_two_processes_2_preemptions', MOD, 'w_conc2', timeout=7000, partitions=parts_q, twin=False,
